@@ -38,12 +38,14 @@ func vhDstType(tag string) string { return vPick(tag, "MATERIALS", "PRODUCTS", "
 func vhDstName(tag string) string { return vPick(tag, "s", "o", "x") }
 
 // vhRule draws one rule; the rule kind is a case split, operands are symbolic.
-var vhRuleMenu int // 0: all 12 kinds; 1: reduced menu (ALLOW, REQUIRE, DISALLOW, malformed, MATCH with source prefix)
+var vhRuleMenu int // 0: all 12 kinds; 1: reduced menu (ALLOW, REQUIRE, DISALLOW, malformed, MATCH with source prefix); 2: REQUIRE, DISALLOW, ALLOW
 
 func vhRule(tag string) []string {
 	k := 0
 	if vhRuleMenu == 1 {
 		k = []int{0, 2, 1, 10, 7}[vChoice(tag+".kind", 5)]
+	} else if vhRuleMenu == 2 {
+		k = []int{2, 1, 0}[vChoice(tag+".kind", 3)]
 	} else {
 		k = vChoice(tag+".kind", 12)
 	}
@@ -241,7 +243,9 @@ func vhCopyArts(m map[string]HashObj) map[string]HashObj {
 	return c
 }
 
-// vh_C03_rules: a = {#materials, #products, #other-artifacts, #material rules, #product rules, item kind (0 step, 1 inspection), terminal DISALLOW * (bit 0: materials, bit 1: products)}
+// vh_C03_rules: a = {#materials, #products, #other-artifacts, #material rules, #product rules, item kind (0 step, 1 inspection), terminal DISALLOW * (bit 0: materials, bit 1: products),
+// rule menu (optional), #symbolic material rules (REQUIRE/DISALLOW/ALLOW) of a second item "o" that is verified after "s" and
+// always ends with DISALLOW <pattern> for each type (optional)}
 func vh_C03_rules(a []int) {
 	vhC03(a, false)
 }
@@ -287,6 +291,20 @@ func vhC03(a []int, twin bool) {
 	}
 	want := vspecApply(rulesM, refLinks["s"].Materials, refLinks["s"].Materials, refLinks["s"].Products, refLinks) &&
 		vspecApply(rulesP, refLinks["s"].Products, refLinks["s"].Materials, refLinks["s"].Products, refLinks)
+	// a second item: its rules run after those of "s" against its own link
+	var rulesM2, rulesP2 [][]string
+	if len(a) > 8 {
+		vhRuleMenu = 2
+		for i := 0; i < a[8]; i++ {
+			rulesM2 = append(rulesM2, vhRule("rm2"))
+		}
+		rulesM2 = append(rulesM2, []string{"DISALLOW", vhPattern("rm2.last")})
+		if a[8] == 0 {
+			rulesP2 = append(rulesP2, []string{"DISALLOW", vhPattern("rp2.last")})
+		}
+		want = want && vspecApply(rulesM2, refLinks["o"].Materials, refLinks["o"].Materials, refLinks["o"].Products, refLinks) &&
+			vspecApply(rulesP2, refLinks["o"].Products, refLinks["o"].Materials, refLinks["o"].Products, refLinks)
+	}
 
 	var item interface{}
 	sci := SupplyChainItem{Name: "s", ExpectedMaterials: rulesM, ExpectedProducts: rulesP}
@@ -299,7 +317,16 @@ func vhC03(a []int, twin bool) {
 		"s": &Metablock{Signed: Link{Type: "link", Name: "s", Materials: mats, Products: prods}},
 		"o": &Metablock{Signed: Link{Type: "link", Name: "o", Materials: omats, Products: oprods}},
 	}
-	err := VerifyArtifacts([]interface{}{item}, md)
+	items := []interface{}{item}
+	if len(a) > 8 {
+		sci2 := SupplyChainItem{Name: "o", ExpectedMaterials: rulesM2, ExpectedProducts: rulesP2}
+		if kind == 0 {
+			items = append(items, Step{Type: "step", SupplyChainItem: sci2})
+		} else {
+			items = append(items, Inspection{Type: "inspection", SupplyChainItem: sci2})
+		}
+	}
+	err := VerifyArtifacts(items, md)
 	vObserve("verdict", err == nil, want)
 	if twin {
 		vAssert("C03.twin", false)
